@@ -100,6 +100,7 @@ Definition sApiValidate := 13. Definition sApiValOrDemote := 14. Definition sSto
 Definition sBecomeLeader := 16. Definition sBecomeFollower := 17. Definition sReconnect := 18.
 Definition sGraceExpired := 19. Definition sDisconnect := 20.
 Definition sHbFail := 21. Definition sHealthFail := 22. Definition sValFail := 23. Definition sVerifyFail := 24.
+Definition sStopCheck := 25.
 Definition stInit := 0. Definition stCandidate := 1. Definition stLeader := 2. Definition stFollower := 3.
 Definition stDemoted := 4. Definition stStopped := 5.
 Definition aStart := 1. Definition aStop := 2. Definition aStopCtx := 3. Definition aValidate := 4.
